@@ -25,11 +25,14 @@ class Local(FileSystem):
         if os.path.altsep:
             os_sep.append(os.path.altsep)
 
-        if not any(sep in expr for sep in os_sep):
-            expr = '.' + os.path.sep + expr
-
         t = Tokenizer(expr)
         prefix = t.get_next(['*', '?'])
+
+        # a relative expression whose literal prefix names no directory (e.g. "*.txt"
+        # or "dir?/part*") has to be walked from the current directory
+        if not any(sep in prefix for sep in os_sep):
+            expr = '.' + os.path.sep + expr
+            prefix = '.' + os.path.sep + prefix
 
         if not any(prefix.endswith(sep) for sep in os_sep) and any(sep in prefix for sep in os_sep):
             prefix = os.path.dirname(prefix)
